@@ -244,6 +244,8 @@ def w_poscar(m, lay, rng, variant):
 
 
 def _vasp_grid(m, rng, variant, fname, perline, unit_key):
+    if variant == "lefthanded":
+        m.cell = m.cell[[1, 0, 2]]      # a left-handed set of cell vectors is as valid as a right-handed one: the volume is positive
     lines, exp = _vasp_header(m, rng, "direct")
     shape = (2 + m.natom % 3, 3, 2 + m.natom % 2)
     n = shape[0] * shape[1] * shape[2]
@@ -935,7 +937,7 @@ WRITERS = {"xyz": w_xyz, "extxyz": w_extxyz, "sdf": w_sdf, "pdb": w_pdb, "gromac
 VARIANTS = {"xyz": ["plain", "numbers"], "poscar": ["direct", "cartesian", "selective", "scaled", "repeated"], "cube": ["five", "ragged", "six", "one", "nval"],
             "gromacs": ["rect", "triclinic"], "json_qcschema": ["plain", "massnumbers"], "gaussianlog": ["plain", "twoel"], "orcalog": ["plain", "opt", "longscf"], "gamess": ["plain", "opt"],
             "qchemlog": ["plain", "unrestricted", "freq"], "wfx": ["plain", "gradient", "gradient_permuted"], "fchk": ["plain", "shuffled"],
-            "gaussianinput": ["plain", "route_units", "route_long"], "fcidump": ["plain", "upper"], "mwfn": ["plain", "ecp"],
+            "gaussianinput": ["plain", "route_units", "route_long"], "fcidump": ["plain", "upper"], "mwfn": ["plain", "ecp"], "chgcar": ["plain", "lefthanded"], "locpot": ["plain", "lefthanded"],
             "cp2klog": ["ae_con", "pp_con", "ae_unc", "pp_unc", "ae_con_u", "pp_unc_u", "ae_unc_u", "pp_con_u"]}
 # coordinate digits written per format and the magnitude classes its columns can hold
 DIGITS = {"xyz": 8, "extxyz": 8, "sdf": 4, "pdb": 3, "gromacs": 3, "charmm": 5, "mol2": 4, "poscar": 8, "chgcar": 8, "locpot": 8, "cube": 6,
